@@ -591,7 +591,18 @@ func (v *Protocol) readMessageHeader(chunk *chunkStream, format formatType) (err
 
 		// TODO: FIXME: Support detect the extended timestamp.
 		// @see http://blog.csdn.net/win_lin/article/details/13363699
-		chunk.header.Timestamp = uint64(timestamp)
+		if format == formatType0 {
+			// For fmt=0, it's the absolute timestamp, which is also the delta of next fmt=3 message.
+			chunk.header.timestampDelta = timestamp
+			chunk.header.Timestamp = uint64(timestamp)
+		} else if format <= formatType2 {
+			// For fmt=1/2, it's the timestamp delta.
+			chunk.header.timestampDelta = timestamp
+			chunk.header.Timestamp += uint64(timestamp)
+		} else if isFirstChunkOfMsg {
+			// For fmt=3 which starts a message, apply the delta again.
+			chunk.header.Timestamp += uint64(chunk.header.timestampDelta)
+		}
 	}
 
 	// The extended-timestamp must be unsigned-int,
